@@ -151,14 +151,27 @@ class SymCx(BaseCx):
         """decide a condition on this path (forks)"""
         return bool(cond)
 
+    def _finite(self, name, *xs):
+        for x in xs:
+            if isinstance(x, _float) and (x != x or x in (_float('inf'), -_float('inf'))):
+                self.fail(name, 'non-finite value %r' % x)
+                return False
+            if not isinstance(x, (int, _float, Fraction, SymReal)) or isinstance(x, bool) and False:
+                self.fail(name, 'not a number: %r' % (x,))
+                return False
+        return True
+
     def _eq_num(self, name, a, b):
-        self.obligations.append(('eq', name, a, b))
+        if self._finite(name, a, b):
+            self.obligations.append(('eq', name, a, b))
 
     def ge(self, name, a, b):
-        self.obligations.append(('ge', name, a, b))
+        if self._finite(name, a, b):
+            self.obligations.append(('ge', name, a, b))
 
     def gt(self, name, a, b):
-        self.obligations.append(('gt', name, a, b))
+        if self._finite(name, a, b):
+            self.obligations.append(('gt', name, a, b))
 
     def check(self, name, cond, detail=''):
         if isinstance(cond, SymBool):
